@@ -1036,6 +1036,17 @@ mod codecx {
 }
 
 /// args: cases.ndjson out.ndjson seed
+/// A reader that hands over at most `chunk` bytes per call.
+struct ShortReads<'a> { data: &'a [u8], pos: usize, chunk: usize }
+impl std::io::Read for ShortReads<'_> {
+    fn read(&mut self, buf: &mut [u8]) -> std::io::Result<usize> {
+        let n = buf.len().min(self.chunk).min(self.data.len() - self.pos);
+        buf[..n].copy_from_slice(&self.data[self.pos..self.pos + n]);
+        self.pos += n;
+        Ok(n)
+    }
+}
+
 fn cmd_codec_cases(args: &[String]) {
     use copia::{Codec, FrameHeader, Message};
     let cases = read_ndjson(&args[0]);
@@ -1100,6 +1111,18 @@ fn cmd_codec_cases(args: &[String]) {
         else if got != want { w.write(&json!({"kind": if want == "Ok" {"violation"} else {"nonconf"},"case":ci,"what":format!("Codec::read_message -> {got}, spec {want}"),"input":inp})); }
         if got == "Ok" && !inner_applies { if let Ok(Ok(m)) = &r { if *m != msg { w.write(&json!({"kind":"violation","case":ci,"what":"decoded message differs from the original","input":inp})); } } }
         if peak > BOUND + (1 << 20) + 2 * e || one > BOUND + 4096 { w.write(&json!({"kind":"violation","case":ci,"what":format!("read_message reserved {peak} bytes (largest single request {one}) > 16 MiB bound"),"input":inp})); }
+        // the same bytes arriving in short reads (a pipe or socket hands over what it has): same outcome, same value
+        for chunk in [1usize, 5, 11 + ci % 3] {
+            let r2 = catch_unwind(AssertUnwindSafe(|| { let mut codec = Codec::new(); codec.read_message(&mut ShortReads { data: &stream[..], pos: 0, chunk }) }));
+            evals += 1;
+            let got2 = codecx::class(&r2);
+            let same_val = match (&r, &r2) { (Ok(Ok(a)), Ok(Ok(b))) => a == b, _ => true };
+            // (which error it is may legitimately depend on where the input ran out; whether it IS one, and the value, may not)
+            if (got2 == "Ok") != (got == "Ok") || got2 == "PANIC" || !same_val {
+                w.write(&json!({"kind":"violation","case":ci,"what":format!("Codec::read_message over reads of at most {chunk} byte(s) -> {got2}, over one read -> {got}: the outcome depends on how the bytes arrive"),"input":inp}));
+                break;
+            }
+        }
         // FrameHeader::decode on the 12 header bytes, FrameHeader::read_from on the stream
         if c["cut"] == "full" {
             let r = catch_unwind(|| FrameHeader::decode(&hdr));
